@@ -38,6 +38,14 @@ func writeReplay(u *Universe, st *SpecTables, d *Discharger, id string, o *Oblig
 		rep, ok := purityProbe(repo, pkgDirOf(o.Decls.Fn))
 		sb.WriteString("---- replay on the real code ----\n" + rep + "\n")
 		confirmed = ok
+	} else if id == "C17" && o.Decls != nil && o.Decls.Fn != nil && o.Decls.Fn.Pkg != nil && pkgDirOf(o.Decls.Fn) == "v3/report" {
+		rep, ok := reportProbe(st, repo)
+		sb.WriteString("---- replay on the real code ----\n" + rep + "\n")
+		confirmed = ok
+	} else if id == "C19" {
+		rep, ok := templateProbe(repo)
+		sb.WriteString("---- replay on the real code ----\n" + rep + "\n")
+		confirmed = ok
 	} else if rep, ok := replayInstance(u, st, d, o, repo); rep != "" {
 		sb.WriteString("---- replay on the real code ----\n")
 		sb.WriteString(rep)
@@ -103,6 +111,14 @@ func probeProblem(st *SpecTables, repo, problem string) (string, bool) {
 		r, ok := purityProbe(repo, dir)
 		sb.WriteString(r)
 		hit = hit || ok
+		if dir == "v3/report" {
+			r, ok := templateProbe(repo)
+			sb.WriteString(r)
+			hit = hit || ok
+			r, ok = reportProbe(st, repo)
+			sb.WriteString(r)
+			hit = hit || ok
+		}
 	}
 	return sb.String(), hit
 }
